@@ -90,6 +90,8 @@ def world (p : Pipeline (ExceptT String m) A V M) (isSeries : V → Bool) : Worl
   unstar
     | .args a => pure [.args a]
     | _ => throw "TypeError"
+  format _ := throw "TypeError"
+  concat _ := throw "TypeError"
   other _ := throw "Unsupported"
   throw cls := throw cls
   rethrow := throw "reraise"
@@ -207,6 +209,8 @@ def cworld (mu : A → Option V → ExceptT String m V) : World (StateT (List V)
     | .args a => pure [.args a]
     | .argl a ex => pure (.args a :: ex)
     | _ => throw "TypeError"
+  format _ := throw "TypeError"
+  concat _ := throw "TypeError"
   other _ := throw "Unsupported"
   throw cls := throw cls
   rethrow := throw "reraise"
